@@ -782,6 +782,7 @@ def slot_inclusion(ctx, crate):
         if not ctx.check(bool(adds), "add-site:" + fkey(b), "re-insert site found in %s" % short(fid), "no re-insert site found in %s" % short(fid), where_of(b)):
             continue
         sub_true = []
+        stale_tests = []
         for e, cond in all_cond_edges(b):
             if cond[0] != "true":
                 continue
@@ -793,11 +794,26 @@ def slot_inclusion(ctx, crate):
             node_side = mir.role_mentions_call(big, "slots") and (mir.role_mentions_call(big, "find_enode") or mir.role_mentions_call(big, "apply_slotmap"))
             if cls_side and node_side:
                 sub_true.append(e)
+                stale_tests.append((e, big, small))
         shrink_calls = {c.bb for c in b.calls if c.callee and c.callee.target in reaches_sw and not b.blocks[c.bb]["cleanup"]}
         ctx.check(bool(sub_true), "subset-test:" + fkey(b), "%s tests slots(class invocation) ⊆ slots(re-canonicalised node)" % short(fid),
                   "%s has no test `slots(class invocation).is_subset(slots(re-canonicalised node))`: whether the class must shrink is decided by something weaker than set inclusion (a count comparison misses nodes that carry redundant slots of their own)" % short(fid), where_of(b))
         ctx.check(bool(shrink_calls), "shrink-call:" + fkey(b), "%s can shrink the class (calls into the slot-set writer)" % short(fid),
                   "%s never reaches the slot-set writer: a class whose node lost a slot is never shrunk" % short(fid), where_of(b))
+        # when the test is evaluated again after a shrink (`while !subset { shrink }`), it looks at the node and the invocation as
+        # they are AFTER that shrink: both operands are re-canonicalised inside the loop (a phi of the value before the loop and
+        # the value refreshed in it).  Testing the node as it was before the first shrink never sees that a node which refers to
+        # its own class shrank with it
+        for e, big, small in stale_tests:
+            sb_ = e[1]
+            loop_shrinks = [x for x in shrink_calls if sb_ in b.reach(b.after(x)) and x in b.reach([sb_])]
+            if not loop_shrinks:
+                continue
+            def refreshed(r_):
+                return any(isinstance(x, tuple) and x[0] == "phi" for x in role_walk(r_)) or any(isinstance(x, tuple) and x[0] == "cycle" for x in role_walk(r_)) or "cycle:" in role_str(r_, 30)
+            ctx.check(refreshed(big), "inclusion-test-sees-refreshed-node:" + fkey(b), "the subset test that is repeated after a shrink looks at the e-node re-canonicalised after that shrink",
+                      "%s repeats `slots(class) ⊆ slots(node)` after a shrink but the node side of the test is the e-node as it was BEFORE the first shrink (it is not re-canonicalised inside the loop): an e-node that refers to its own class loses the slot together with the class, the loop ends believing the inclusion holds, and the class keeps a slot this node lacks" % short(fid),
+                      where_of(b, sb_))
         for c in adds:
             ok = b.must_pass([0], {c.bb}, set(sub_true) | shrink_calls)
             ctx.check(ok, "inclusion-before-insert:" + fkey(b), "every path to the re-insert in %s passes the subset test's true edge or the shrink" % short(fid),
